@@ -271,14 +271,18 @@ SetVersion(v) == Idle /\ ver' = v /\ nver' = v /\ UNCHANGED xmode /\ last' = Non
 \* set_continous_wave: channel 0, data (0, enabled); arming / crash-recovery answers: channel 0, first byte 1 / 2;
 \* firmware-version answer: channel 1, first byte 1; app-channel data: channel 2, anything).  d = the data bytes.
 \* data[0] / data[1] of a shorter packet raise IndexError inside the callback (the dispatcher logs it): nothing stored.
-\* A well-formed protocol-version answer among them (channel 1, first byte 0, two bytes) IS a negotiation.
+\* A protocol-version answer among them (channel 1, first byte 0, two bytes) arrives outside a fetch: since
+\* repair 11c63c8 PlatformService hands the platform information over once per fetch and ignores
+\* duplicated / late answers, so it is no negotiation and changes nothing (SetVersion is the complete
+\* fetch + answer).  Bug "version_unsolicited" is the behaviour before that repair.
 IsVersionAnswer(ch, d) == ch = 1 /\ Len(d) >= 2 /\ d[1] = 0
 PlatformPacket(ch, d) ==
     /\ Idle
     /\ LET takes == IF Bug = "version_demorgan" THEN ch = 1 \/ (Len(d) >= 1 /\ d[1] = 0)
-                    ELSE ch = 1 /\ Len(d) >= 1 /\ d[1] = 0
+                    ELSE IF Bug = "version_unsolicited" THEN ch = 1 /\ Len(d) >= 1 /\ d[1] = 0
+                    ELSE FALSE
        IN ver' = IF takes /\ Len(d) >= 2 THEN d[2] ELSE ver
-    /\ nver' = IF IsVersionAnswer(ch, d) THEN d[2] ELSE nver
+    /\ nver' = nver
     /\ last' = None /\ UNCHANGED xmode /\ UNCHANGED envvars
 \* Commander.set_client_xmode
 SetXMode(b) == Idle /\ xmode' = b /\ UNCHANGED <<ver, nver>> /\ last' = None /\ UNCHANGED envvars
